@@ -41,6 +41,11 @@ UNKNOWN_REGEX = re.compile(
 # Recognized register names
 REGISTERS = ["A", "B", "D", "X", "Y", "U", "S", "CC", "DP", "PC"]
 
+# Pattern to recognize the register part of an indexed operand
+INDEX_REGISTER_REGEX = re.compile(
+    r"^(-{0,2}[XYUS]|[XYUS]\+{1,2}|PCR)$"
+)
+
 # C L A S S E S ###############################################################
 
 
@@ -278,9 +283,11 @@ class SpecialOperand(Operand):
             if not self.operand_string:
                 raise OperandTypeError("one or more registers must be specified")
 
+            # bit $40 stands for the other stack pointer; an instruction cannot stack its own
+            own, other = ("S", "U") if self.instruction.mnemonic in ["PSHS", "PULS"] else ("U", "S")
             registers = self.operand_string.split(",")
             for register in registers:
-                if register not in REGISTERS:
+                if register not in REGISTERS or register == own:
                     raise OperandTypeError("[{}] unknown register".format(register))
 
                 post_byte |= 0x06 if register == "D" else 0x00
@@ -290,7 +297,7 @@ class SpecialOperand(Operand):
                 post_byte |= 0x08 if register == "DP" else 0x00
                 post_byte |= 0x10 if register == "X" else 0x00
                 post_byte |= 0x20 if register == "Y" else 0x00
-                post_byte |= 0x40 if register == "U" else 0x00
+                post_byte |= 0x40 if register == other else 0x00
                 post_byte |= 0x80 if register == "PC" else 0x00
 
         if self.instruction.mnemonic == "EXG" or self.instruction.mnemonic == "TFR":
@@ -531,6 +538,11 @@ class ExtendedIndexedOperand(Operand):
                 max_size=size,
             )
 
+        if not INDEX_REGISTER_REGEX.match(self.right):
+            raise OperandTypeError("[{}] unknown index register".format(self.right))
+        if self.right == "PCR" and self.left in ["", "A", "B", "D"]:
+            raise OperandTypeError("[{}] PCR needs an offset".format(self.operand_string))
+
         raw_post_byte = 0x80
         post_byte_choices = []
         size = self.instruction.mode.ind_sz
@@ -665,6 +677,11 @@ class IndexedOperand(Operand):
             raise OperandTypeError(
                 "Instruction [{}] does not support indexed addressing".format(self.instruction.mnemonic)
             )
+        if not INDEX_REGISTER_REGEX.match(self.right):
+            raise OperandTypeError("[{}] unknown index register".format(self.right))
+        if self.right == "PCR" and self.left in ["", "A", "B", "D"]:
+            raise OperandTypeError("[{}] PCR needs an offset".format(self.operand_string))
+
         raw_post_byte = 0x00
         post_byte_choices = []
         size = self.instruction.mode.ind_sz
